@@ -28,7 +28,8 @@ def corpus():
         cases.append({"text": open(f).read(), "meta": {"src": f}})
     # witnesses of the defects found by this check (kept so that they can never return unnoticed)
     for t in ["system ok retry 3 backoff 5s\necho hi\n", "sleep 90s\n", "statement ok retry 2 backoff 1500ms\nselect 1\n",
-              "connection a\nconnection default\nstatement ok\nselect 1\n", "query I retry 1 backoff 1h1s\nselect 1\n----\n1\n"]:
+              "connection a\nconnection default\nstatement ok\nselect 1\n", "query I retry 1 backoff 1h1s\nselect 1\n----\n1\n",
+              "statement ok\nselect 1\r\r\n"]:
         cases.append({"text": t, "meta": {"src": "witness"}})
     return cases
 
@@ -132,6 +133,12 @@ def direct_check(case, io):
 
 
 def classify_known(case, io):
+    ls = case["text"].split("\n")
+    if ls and ls[-1] == "":
+        ls.pop()
+    ls = [l[:-1] if l.endswith("\r") else l for l in ls[:-1]] + ls[-1:] if False else [l[:-1] if (l.endswith("\r") and i < len(ls) - 1 or l.endswith("\r") and case["text"].endswith("\n")) else l for i, l in enumerate(ls)]
+    if any(l.endswith("\r") for l in ls):
+        return "D16"
     return None
 
 
